@@ -35,4 +35,7 @@ def run(ctx):
     worlds += cw.junk_worlds('c09')
     worlds += cw.extra_worlds('c09', g, ctx.tier, ORACLES)
     run_suite(ctx, 'clean.C09', worlds, known=known, chunk=200)
+    # the snapshot directory reached through a symbolic link: the files matched through it are addressed, the stale one next
+    # to them is reported (implementation only: the model has no links)
+    run_suite(ctx, 'clean.symlinked-dir', cw.symlink_worlds('c09'), known=known, use_model=False)
     findings.report(ctx, 'C09')
